@@ -451,3 +451,4 @@ def run(ctx):
   shared.rule_rebuild_completeness(ctx, 'C05.R9')
   r10_constant_carries_data(ctx)
   r11_constant_numeric_table(ctx)
+  shared.rule_operator_sweep(ctx, 'C05.R12')
